@@ -217,6 +217,8 @@ class Executor:
             return ClassV(name)
         if name in BUILTIN_TYPES:
             return ClassV(name)
+        if name in LIB_KIND or name in LIB_CLASS_ATTRS or name in ("ScalarBoolean", "ScalarInt", "ScalarFloat", "ScalarString"):
+            return ClassV(name)           # library classes named in contract / spec text
         return BuiltinV(name)
 
     # ---------------------------------------------------------------- truthiness
